@@ -64,7 +64,7 @@ pub fn specs(tier: &str) -> Vec<ExpSpec> {
             c.ticking = true;
             c.atime = atime;
             c.name = format!("{}-clock{}", c.name, if atime { "-atime" } else { "" });
-            v.push(ExpSpec::new(c, alphabet(512), if th { 7 } else { 5 }));
+            v.push(ExpSpec::new(c, alphabet(512), if th { 8 } else { 5 }));
         }
     }
     v
